@@ -85,7 +85,7 @@ def accesses(P, fn):
             p = G.parse_load(i)
             if p in alias:
                 at = " atomic " in (" " + i.text + " ")
-                if at and i.dbg is not None and (i.file or "").find("/repo/") < 0:
+                if at and i.dbg is not None and not (i.file or "").endswith("thread-link.cpp"):
                     out.append((alias[p], "atomic-load", "explicit", i))
                 else:
                     out.append((alias[p], "atomic-load" if at else "plain-load", _ord_of_text(i.text), i))
@@ -93,7 +93,7 @@ def accesses(P, fn):
             v, p = G.parse_store(i)
             if p in alias:
                 at = "store atomic" in i.text
-                if at and (i.file or "").find("/repo/") < 0:
+                if at and not (i.file or "").endswith("thread-link.cpp"):
                     out.append((alias[p], "atomic-store", "explicit", i))
                 else:
                     out.append((alias[p], "atomic-store" if at else "plain-store", _ord_of_text(i.text), i))
@@ -147,6 +147,7 @@ def run(ctx):
     ctx.rule("R06.2", "PUBLISH-ORDER: no copy into (out of) the ring buffer is reachable after the store to `write` (`read`) in ring_write (ring_read)")
     ctx.rule("R06.3", "INDEX-OWNERSHIP: `write` is stored only in functions reached solely from the producer API (+constructor); `read`/`read_lookahead` only from the consumer API (+constructor)")
     ctx.rule("R06.4", "SPACE-GUARD: every call of ring_write is dominated by the true edge of ring_write_size(ring) >= len on the same len")
+    ctx.rule("R06.6", "SPACE-ARITH: ring_write_size / ring_read_size, evaluated for every ring size 2..9 (powers of two and not) and every pair of indices, return (read - write - 1) mod size and (write - read) mod size: one slot stays free, full and empty are told apart")
     ctx.rule("R06.5", "MAXMSG-GUARD: on every path into ring_write, len is the result of a builder whose capacity argument is MaxMsg or was compared <= MaxMsg")
 
     layout = field_layout(u)
@@ -296,6 +297,43 @@ def run(ctx):
             ctx.ob("R06.3", "%s stores %s" % (P.dm(fname).split("(")[0], fld), not bad, site=st[0].where(), detail={"reached_from": sorted(P.dm(r) for r in roots)},
                    what="`%s` is stored in %s, which is reachable from %s" % (fld, P.dm(fname).split("(")[0], bad))
     ctx.require_count("R06.3", 5)
+
+    # ---- R06.6 (AST, finite-domain evaluation)
+    from .. import fdeval as FD
+    for q, expect in (("ring_write_size", lambda r_, w_, n_: (r_ - w_ - 1) % n_), ("ring_read_size", lambda r_, w_, n_: (w_ - r_) % n_)):
+        fnq = u.function(q)
+        ps = u.params(fnq)
+        bad = []
+        ncase = 0
+        try:
+            for n_ in range(2, 10):
+                for r_ in range(n_):
+                    for w_ in range(n_):
+                        def hook(x, ev, r_=r_, w_=w_, n_=n_):
+                            k = x.get("kind")
+                            if k == "MemberExpr" and x.get("name") in ("write", "read", "read_lookahead", "size"):
+                                return {"write": w_, "read": r_, "read_lookahead": r_, "size": n_}[x.get("name")]
+                            if k == "CXXMemberCallExpr":     # std::atomic<long>::operator long()
+                                cal = A.strip_casts(A.kids(x)[0])
+                                if cal.get("kind") == "MemberExpr" and A.kids(cal):
+                                    return ev.ev(A.kids(cal)[0])
+                            return NotImplemented
+                        env = {ps[0]["id"]: 4096}
+                        if len(ps) > 1:
+                            env[ps[1]["id"]] = 0
+                        ev = FD.Eval(env=env, node_hook=hook)
+                        try:
+                            ev.run(u.body(fnq))
+                            got = None
+                        except FD._Return as rr:
+                            got = rr.v
+                        ncase += 1
+                        if got != expect(r_, w_, n_):
+                            bad.append({"size": n_, "read": r_, "write": w_, "returns": got, "expected": expect(r_, w_, n_)})
+        except FD.Unknown as e:
+            raise AnalysisBroken("R06.6: %s not evaluable: %s" % (q, e))
+        ctx.ob("R06.6", q, not bad, site=A.where(fnq), detail={"cases": ncase, "mismatches": bad[:5]},
+               what="%s is wrong for %s" % (q, bad[:2]))
 
     # ---- R06.4 / R06.5
     rw = fn_named(r'^rtosc::ring_write\(')
